@@ -28,6 +28,7 @@ MISSED_FIRST = {
     "c04-failed-group-leaves-tmp-batch": "T1-group-scratch-reset",
     "c01-get-range-upper-bound-by-smallest": "T8-range-fold",
     "c10-approximate-offset-unpins-table-early": "T10-pinning/table-used-while-pinned",
+    "c09-open-does-not-schedule-compaction": "T11-work-scheduled",
     "c07-dbiter-skip-bytewise-equal": "T12-dbiter-composition (db_iter.c tables were added after this seed arrived)",
 }
 rows = []
